@@ -123,8 +123,17 @@ def run(a):
             if os.path.exists(p):
                 saved[p] = open(p, "rb").read()
         res["demo_clean_exit"] = run_demo(d, REPO)
-        ap_ = sh(["git", "-C", REPO, "apply", os.path.join(d, "patch.diff")])
+        patch = os.path.join(d, "patch.diff")
+        ap_ = sh(["git", "-C", REPO, "apply", patch])
         if ap_.returncode != 0:
+            # a pending repair (--fix) touches the same lines: the seeded change re-expressed on top of that repair, if provided
+            for fx in a.fix:
+                alt = os.path.join(d, "patch-after-fix-" + os.path.basename(fx))
+                if os.path.exists(alt) and sh(["git", "-C", REPO, "apply", alt]).returncode == 0:
+                    patch, ap_ = alt, None
+                    res["patch_used"] = os.path.basename(alt)
+                    break
+        if ap_ is not None and ap_.returncode != 0:
             res["error"] = "patch does not apply: " + ap_.stderr[-300:]
         else:
             try:
@@ -146,7 +155,7 @@ def run(a):
                                     shutil.copy(src, os.path.join(d, "replay-%s-%s.json" % (pid, tier)))
                             break
             finally:
-                sh(["git", "-C", REPO, "apply", "-R", os.path.join(d, "patch.diff")])
+                sh(["git", "-C", REPO, "apply", "-R", patch])
                 if not repo_clean():
                     sh(["git", "-C", REPO, "checkout", "--", "."])
                     sh(["git", "-C", REPO, "clean", "-fdq", "src", "tests"])
